@@ -276,11 +276,38 @@ class Table:
                 if rv["k"] == "ref":
                     return const_variant({"k": "copy", "place": rv["place"]}, depth + 1)
             return None
+        def const_enum_adt(op, depth=0):
+            if op["k"] == "const":
+                return norm(op.get("enum_adt") or op.get("adt") or "") or None
+            if depth > 5 or op["place"]["p"] and any(pe["k"] != "deref" for pe in op["place"]["p"]):
+                return None
+            ds = [d for d in self.body.defs.get(op["place"]["l"], []) if d[0] in ("assign", "call")]
+            if len(ds) == 1 and ds[0][0] == "assign" and ds[0][3]["k"] == "assign":
+                rv = ds[0][3]["rv"]
+                if rv["k"] in ("use", "cast"):
+                    return const_enum_adt(rv["op"], depth + 1)
+                if rv["k"] == "ref":
+                    return const_enum_adt({"k": "copy", "place": rv["place"]}, depth + 1)
+            return None
         cv = const_variant(t["args"][1]) if short in ("eq", "ne") and len(t["args"]) == 2 else None
         if cv:
             key = self._raw(args[0])
             var = cv.split("::")[-1]
             yes, no = Val("const", short == "eq"), Val("const", short != "eq")
+            # the compared value is known on this path: decide now.  The constant is recorded by its innermost variant and that
+            # variant's enum (`TokenType::Keyword(KeywordKind::Asm)` -> Asm of KeywordKind)
+            cadt = const_enum_adt(t["args"][1])
+            v0 = args[0]
+            depth0 = 0
+            while v0.kind == "agg" and depth0 < 4:
+                if cadt and norm(str(v0.a[0])) == cadt:
+                    return [([], yes if v0.a[1] == var else no, (), ())]
+                if not v0.a[2]:
+                    if cadt:
+                        return [([], no, (), ())]          # a unit variant of an outer enum is not a value that wraps `var`
+                    break
+                v0 = v0.a[2][0]
+                depth0 += 1
             return [([("is", key, var)], yes, (), ()), ([("not", key, (var,))], no, (), ())]
         # `?` on a value whose variant is known on this path
         if short == "branch" and "try_trait::Try" in nm and len(args) == 1 and args[0].kind == "agg" and args[0].a[1] in ("Ok", "Err", "Some", "None"):
